@@ -35,7 +35,9 @@ type c19SeqCase struct {
 	NoReset []bool  `json:"no_reset"`
 }
 
-func init() { registerReplay("c19seq", func(c c19SeqCase) error { _, err := runC19Seq(c); return err }) }
+func init() {
+	registerReplay("c19seq", func(c c19SeqCase) error { _, err := runC19Seq(c); return err })
+}
 
 func runC19Seq(c c19SeqCase) (bool, error) {
 	ft := c19Base(c.Logical)
